@@ -144,7 +144,7 @@ def sizes_for(rng, n, kmax, allow_empty=True):
 
 _cache = {}
 
-DE_VALUES = [0.25, 0.5, 1.0, 2.0]
+DE_VALUES = [0.25, 0.5, 1.0, 2.0, 0.1, 0.7, 1.1, 3.0]      # incl. values whose float32 image times C(n,2) is not a float32
 AB_VALUES = [0.0, 0.5, 1.0, 3.0]
 
 
